@@ -1,9 +1,193 @@
 """Registry of the simulator libraries other than gil_lib for the cross-cutting checks
-(C04, C05, C09, C10, C14, C18).  Each entry adapts one library (harness/<x>_lib.py) once it
-has been merged; until then the list is empty and the checks say so in their evidence."""
+(C04 trajectories, C05 initial condition, C09 transmissions, C10 full data = arrays).
+Each adapter runs one merged library (harness/<x>_lib.py): the extracted model chooses the
+draw script / tables, the implementation runs on them, the library's own comparison is
+the tie, and the cross-cutting Python oracle (harness/xcut.py) judges the implementation's
+output for the property at hand."""
+import importlib
+from fractions import Fraction as F
 from . import common as C
+from . import simrun as R
+from . import sim_check as SC
+from . import xcut as X
 
-ADAPTERS = []   # filled in as components are merged: objects with .name, .available(), .run(run, pid, EoN, sim, tier, what) -> dict
+
+def _ids(case, key):
+    gc = case['gc']
+    return {gc.idmap[u] for u in (case.get(key) or [])}
+
+
+class SIRlike:
+    """esir_lib (fast_nonMarkov_SIR with table rules 'NM', fast_SIR 'FSIR'), esis_lib (fast_SIS,
+    fast_nonMarkov_SIS): same case fields and outputs as gil_lib"""
+    def __init__(self, name, modname, kind, sir, entry, model_file, proved):
+        self.name, self.modname, self.kind, self.sir, self.entry, self.model_file, self.proved = name, modname, kind, sir, entry, model_file, proved
+
+    def lib(self):
+        return importlib.import_module('harness.' + self.modname)
+
+    def available(self):
+        try:
+            lib = self.lib()
+        except ImportError:
+            return False
+        ok, log = C.build_driver(lib.COMP)
+        return ok
+
+    def merge(self, rows):
+        """one row per distinct time (what summary() of the full-data object reports)"""
+        last = {}
+        for t, c in rows: last[t] = list(c)
+        return sorted(last.items())
+
+    def oracle(self, what, lib, EoN, sim):
+        sir = self.sir
+        moves = X.SIR_MOVES if sir else X.SIS_MOVES
+        def f(case, impl, m):
+            if impl['status'] != 'OK':
+                return []
+            gc = case['gc']; N = len(gc.order)
+            if isinstance(impl.get('rows'), str):
+                return [('arrays', impl['rows'])]
+            out = []
+            # an event at exactly tmin (a zero user delay, or a dyadic coincidence of scripted draws) is a
+            # same-instant tie with the initial condition: never judged by the cross-cutting oracles
+            tr = impl.get('trans')
+            tie0 = isinstance(tr, list) and any(s is not None and C.close(t, float(case['tmin'])) for t, s, g in tr)
+            if not tie0 and not isinstance(impl['rows'], tuple) and len(impl['rows']) > 1 and C.close(impl['rows'][1][0], float(case['tmin'])):
+                tie0 = True
+            if tie0 and what in ('initial_condition', 'valid_transmissions', 'full_vs_arrays'):
+                return []
+            if what == 'wf_traj':
+                rows = impl['rows']
+                if case.get('full') and not isinstance(rows, tuple):
+                    # summary() merges simultaneous events: judge merged rows without the one-move clause
+                    d = X.wf_traj(rows, case['tmin'], case['tmax'], N, moves, continuous=False)
+                    if not d and case['tmax'] is not None and rows and len(rows) > 1 and not rows[-1][0] < float(case['tmax']):
+                        d = 'last row at %r, not before tmax=%s' % (rows[-1][0], case['tmax'])
+                else:
+                    d = X.wf_traj(rows, case['tmin'], case['tmax'], N, moves, continuous=True)
+                if d: out.append(('wf_traj', d))
+            elif what == 'initial_condition':
+                if case.get('i0') is not None and case.get('rho') is None:
+                    d = X.initial_condition(impl['rows'], impl.get('hist'), N, _ids(case, 'i0'), _ids(case, 'r0') if sir else set(), case['tmin'], sir)
+                    if d: out.append(('initial-condition', d))
+            elif what == 'valid_transmissions':
+                # fast_nonMarkov_SIS: the documented contract of the user's rule is 'all delays are before
+                # recovery'; the C13 tables deliberately ignore it, so that simulator is judged by c09.py's own battery
+                if 'hist' in impl and case.get('i0') is not None and self.name != 'fast_nonMarkov_SIS':
+                    G = gc.G
+                    adj = {gc.idmap[u]: {gc.idmap[v] for v in G.neighbors(u)} for u in gc.order}
+                    d = X.valid_transmissions(impl['trans'], impl['hist'], adj, _ids(case, 'i0'), case['tmin'], sir=sir)
+                    if d: out.append(('transmissions', d))
+            elif what == 'full_vs_arrays':
+                if 'hist' in impl:
+                    plain = lib.run_impl(EoN, sim, case, m.get('draws', []), full=False)
+                    if plain['status'] == 'OK' and not isinstance(plain['rows'], (str, tuple)):
+                        mv = {(0, 1), (1, 2)} if sir else {(0, 1), (1, 0)}
+                        d = X.full_vs_arrays(impl['hist'], plain['rows'], 3 if sir else 2, case['tmin'], mv)
+                        if d: out.append(('full-vs-arrays', d))
+                        if not d and not isinstance(impl['rows'], (str, tuple)):
+                            if R.rows_equal(self.merge(impl['rows']), [(F(t).limit_denominator(10 ** 9) if False else t, c) for t, c in self.merge(plain['rows'])]):
+                                out.append(('accessors', 'S()/I()/R()/t() of the full-data object differ from the plain arrays: %s' % R.rows_equal(self.merge(impl['rows']), self.merge(plain['rows']))))
+                    elif plain['status'] != 'OK':
+                        out.append(('plain-mode', 'full-data run returns but the same draws without return_full_data give %s %s' % (plain['status'], plain.get('err', ''))))
+            return out
+        return f
+
+    def run(self, run, pid, EoN, sim, tier, what, total):
+        lib = self.lib(); rng = run.rng
+        n = 500 if tier == 'quick' else 8000
+        kw = {}
+        cases = []
+        for i in range(n):
+            c = lib.gen_case(rng, kind=self.kind, nmax=8)
+            if what in ('valid_transmissions', 'full_vs_arrays'): c['full'] = True
+            cases.append(c)
+        res = SC.Result()
+        SC.run_cases(lib, EoN, sim, cases, ['W ' + R.ent_tokens(rng) for _ in cases], self.oracle(what, lib, EoN, sim),
+                     lambda case, m, impl: m['status'] == 'OK' and len(m.get('rows', [])) >= 2, res, self.name)
+        SC.report(run, pid, self.entry, res, self.model_file, 'its own property file')
+        total.n += res.n; total.nontrivial += res.nontrivial; total.distinct |= res.distinct; total.samples += res.samples[:1]
+        return {'proved': self.proved, 'cases': res.n, 'mismatches': len(res.mism), 'oracle_failures': len(res.oracle_bad), 'distribution': res.stats}
+
+    def replay(self, rp):
+        lib = self.lib()
+        EoN = C.import_eon(); import EoN.simulation as sim
+        j = rp['replay']; case = lib.case_from_json(j)
+        draws = [F(x) for x in j.get('draws', [])]
+        impl = lib.run_impl(EoN, sim, case, draws)
+        print('implementation:', {k: v for k, v in impl.items() if k not in ('inv', 'log', 'calls')})
+        bad = []
+        for what in ('wf_traj', 'initial_condition', 'valid_transmissions', 'full_vs_arrays'):
+            bad += self.oracle(what, lib, EoN, sim)(case, impl, {'status': 'OK', 'draws': draws})
+        print('oracle verdict:', bad or 'holds'); return 1 if bad else 0
+
+
+class Generic:
+    """simple_lib / complex_lib: arbitrary status sets; the trajectory oracle checks time order,
+    tmax, non-negative counts and that one node changes per row"""
+    def __init__(self, name, modname, entry, model_file):
+        self.name, self.modname, self.entry, self.model_file = name, modname, entry, model_file
+
+    def lib(self):
+        return importlib.import_module('harness.' + self.modname)
+
+    def available(self):
+        try:
+            lib = self.lib()
+        except ImportError:
+            return False
+        ok, log = C.build_driver(lib.COMP)
+        return ok
+
+    def oracle(self, what):
+        def f(case, impl, m):
+            if impl['status'] != 'OK' or m.get('status') != 'OK': return []
+            rows = impl.get('rows')
+            if what != 'wf_traj' or rows is None or isinstance(rows, str) or case.get('full'): return []
+            if isinstance(rows, tuple) and rows and rows[0] == 'RAGGED':
+                return [('wf_traj', 'arrays of different lengths %r' % (rows[1],))]
+            N = len(case['gc'].order); tmin = case['tmin']; tmax = case['tmax']
+            if not rows: return [('wf_traj', 'no rows')]
+            if not C.close(rows[0][0], float(tmin)): return [('wf_traj', 'first time %r is not tmin=%s' % (rows[0][0], tmin))]
+            for i, (t, c) in enumerate(rows):
+                if any(x < 0 for x in c) or sum(c) > N * max(1, len(c)):
+                    return [('wf_traj', 'row %d has impossible counts %r' % (i, c))]
+                if i:
+                    if t < rows[i - 1][0]: return [('wf_traj', 'time decreases at row %d' % i)]
+                    if tmax is not None and not t < float(tmax) and not case.get('full'):
+                        return [('wf_traj', 'row %d at %r, not before tmax=%s' % (i, t, tmax))]
+                    if not case.get('full'):
+                        d = [a - b for a, b in zip(c, rows[i - 1][1])]
+                        # a status listed twice in return_statuses is reported twice: judge distinct columns
+                        if sorted(x for x in set(map(tuple, [[dd] for dd in d])) if x != (0,)) and (max(d) > 1 or min(d) < -1):
+                            return [('wf_traj', 'rows %d->%d differ by %r: more than one node changed' % (i - 1, i, d))]
+            return []
+        return f
+
+    def run(self, run, pid, EoN, sim, tier, what, total):
+        if what != 'wf_traj':
+            return {'proved': False, 'status': 'generic statuses: covered by the component\'s own check'}
+        lib = self.lib(); rng = run.rng
+        n = 400 if tier == 'quick' else 6000
+        cases = [lib.gen_case(rng) for i in range(n)]
+        res = SC.Result()
+        SC.run_cases(lib, EoN, sim, cases, ['W ' + R.ent_tokens(rng) for _ in cases], self.oracle(what),
+                     lambda case, m, impl: m['status'] == 'OK' and len(m.get('rows', [])) >= 2, res, self.name)
+        SC.report(run, pid, self.entry, res, self.model_file, 'its own property file')
+        total.n += res.n; total.nontrivial += res.nontrivial; total.distinct |= res.distinct; total.samples += res.samples[:1]
+        return {'proved': False, 'cases': res.n, 'mismatches': len(res.mism), 'oracle_failures': len(res.oracle_bad), 'distribution': res.stats}
+
+
+ADAPTERS = [
+    SIRlike('fast_nonMarkov_SIR', 'esir_lib', 'NM', True, 'fast_nonMarkov_SIR', 'Model/EventSIR.v', 'C11: first-passage percolation, arrays and transmissions read off the final state'),
+    SIRlike('fast_SIR', 'esir_lib', 'FSIR', True, 'fast_SIR', 'Model/EventSIR.v', 'C11 (through the shared loop)'),
+    SIRlike('fast_SIS', 'esis_lib', 'fast_SIS', False, 'fast_SIS', 'Model/EventSIS.v', 'C02fast: log_ok (every event enabled)'),
+    SIRlike('fast_nonMarkov_SIS', 'esis_lib', 'fast_nonMarkov_SIS', False, 'fast_nonMarkov_SIS', 'Model/EventSIS.v', 'C13: refines the reference agenda semantics'),
+    Generic('Gillespie_simple_contagion', 'simple_lib', 'Gillespie_simple_contagion', 'Model/Simple.v'),
+    Generic('Gillespie_complex_contagion', 'complex_lib', 'Gillespie_complex_contagion', 'Model/Complex.v'),
+]
 
 
 def run_others(run, pid, EoN, sim, tier, per, total, what):
@@ -20,6 +204,6 @@ def run_others(run, pid, EoN, sim, tier, per, total, what):
 
 def replay(rp):
     for a in ADAPTERS:
-        if rp['replay'].get('entry', '').startswith(a.name) and hasattr(a, 'replay'):
+        if rp['replay'].get('entry', '') == a.entry and hasattr(a, 'replay'):
             return a.replay(rp)
     print('no replay adapter for', rp['replay'].get('entry')); return 2
